@@ -10,7 +10,7 @@ REPO="${VERIF_REPO:-/repo}"
 export GOFLAGS=-mod=mod GOPROXY=off GOSUMDB=off GOTOOLCHAIN=local
 export GOCACHE="${GOCACHE:-$HOME/.cache/go-build}"
 SCR="$(mktemp -d "${TMPDIR:-/tmp}/vrf-XXXXXX")"
-trap 'rm -rf "$SCR"' EXIT
+trap '[ -n "${VERIF_KEEP:-}" ] && echo "kept $SCR" || rm -rf "$SCR"' EXIT
 if [ ! -x "$VERIF/bin/vinstr" ] || [ "$VERIF/vinstr/main.go" -nt "$VERIF/bin/vinstr" ]; then
   (cd "$VERIF/vinstr" && go build -o "$VERIF/bin/vinstr" .) || { echo "HARNESS-ERROR: cannot build vinstr"; exit 2; }
 fi
